@@ -131,6 +131,24 @@ def run_table(p, amts):
         cls.register_converter(TableConverter(rows[:1]))
         cls.register_converter(TableConverter({(r[0], r[1]): (r[2], r[3])
                                                for r in rows[1:]}))
+    elif form == 'list+others':
+        # other tables exist besides the registered one: one that was
+        # registered and withdrawn before (it tabulated the opposite
+        # directions, and a pair the table does not know), and one that is
+        # built afterwards and never registered.  Neither has any say.
+        known = {(a, b) for a, b, f, o in table} | \
+            {(b, a) for a, b, f, o in table}
+        strangers = [pr for pr in PAIRS if pr not in known][:1]
+        old = TableConverter([(r[1], r[0], O.dec('i:7'), O.dec('i:1'))
+                              for r in rows]
+                             + [(us[a], us[b], O.dec('i:7'), O.dec('i:1'))
+                                for a, b in strangers])
+        cls.register_converter(old)
+        cls.remove_converter(old)
+        conv = TableConverter(rows)
+        cls.register_converter(conv)
+        TableConverter([(us[a], us[b], O.dec('i:5'), O.dec('i:-2'))
+                        for a, b in PAIRS])
     elif form == 'gen':        # an Iterable that can be walked only once
         conv = TableConverter(r for r in rows)
         cls.register_converter(conv)
@@ -413,6 +431,7 @@ def run(tier, seed):
             uniq.append(t)
     parts = [(t, form) for t in uniq for form in ('mapping', 'list', 'gen')]
     parts += [(t, 'two') for t in uniq if len(t) >= 2]
+    parts += [(t, 'list+others') for t in uniq]
     uamts = ['i:0', 'i:7', 'D:-2.5', 'F:1/3', 'i:32', 'D:0.1', 'F:-1/3']
     total.merge(pmap(run_table, parts, (uamts,), fresh=True))
     total.sample({'table': uniq[len(uniq) // 2], 'form': 'list',
@@ -428,7 +447,9 @@ def run(tier, seed):
              f"defining fixed points both ways; user tables: all "
              f"{len(uniq)} tables with <= "
              f"{3 if tier == 'thorough' else 2} rows over the 6 ordered unit "
-             "pairs x factors x offsets, as mapping and as list, each in a "
+             "pairs x factors x offsets, as mapping, list, one-shot iterable, "
+             "spread over two converters, and as a list beside a withdrawn "
+             "and a never registered table, each in a "
              "fresh fork: all 9 unit pairs x 7 amounts (forward, reverse, "
              "identity, missing). non-trivial = units differ",
         level_text="bounded exhaustive exploration against exact affine "
